@@ -90,12 +90,13 @@ PROPS = {
         "explanation": "The real TzLocation::{naive, datetime} and the zone plumbing of iter_range/state run against the stub zone; results compared with arithmetic on the symbolic offsets.",
     },
     "C11": {
-        "engines": ["K"],
-        "bounds": ["Coordinates::new over all 2^128 pairs of f64 bit patterns", "default events on every date 1900..=9999", "event offset arithmetic for every i16 offset"],
+        "engines": ["K", "S"],
+        "bounds": ["K: Coordinates::new over all 2^128 pairs of f64 bit patterns", "K: default events on every date 1900..=9999", "K: event offset arithmetic for every i16 offset",
+                   "S (c09 suite, labels `events:`): TzLocation::event_time with coordinates on 3 (date, coordinates) pairs (one before 1970, one inside the zone's transition window): the UTC instant of each of the four events is ANY second of the date (sunrise stub), the zone has one symbolic transition (offsets within +-14 h, whole minutes): the result is the time of day of that instant in the context zone; default times for a zone context without coordinates"],
         "outside_bounds": ["dawn < sunrise < noon < sunset < dusk (floating-point trigonometry in the sunrise crate)", "zone inference from coordinates (tzf-rs polygons)", "'every accepted pair yields a zone and evaluates'"],
-        "stubs": [],
-        "assumptions": ["CBMC's bit-precise IEEE-754 semantics"],
-        "explanation": "Partial claim: coordinate acceptance, documented default event times, event + offset arithmetic with the 00:00 fallback.",
+        "stubs": ["S: the `sunrise` crate is replaced by a stub returning an arbitrary UTC instant of the requested date per (date, event); native replay uses the real crate"],
+        "assumptions": ["CBMC's bit-precise IEEE-754 semantics", S_TWIN, S_SHIM, S_REPLAY],
+        "explanation": "Partial claim: coordinate acceptance, documented default event times, event + offset arithmetic with the 00:00 fallback, UTC event -> context-zone wall-clock conversion.",
     },
     "C13": {
         "engines": ["S"],
